@@ -150,12 +150,28 @@ static void positions(const Text &t, vx::Ctx &ctx) {
         inner += SizeT64{1};
         root[ko.c_str()].Get(s.data(), SizeT(s.size())) = inner; // object whose KEY is the string
     }
+    // the same string behind a pointer-to-value, as an array item, as a nested member, as a grouping value
+    Value<C> holder(s.data(), SizeT(s.size()));
+    const S  kr = lit("r"), kl = lit("l"), km = lit("m"), kn = lit("n"), kg = lit("g"), ky = lit("y"), kw = lit("w");
+    root[kr.c_str()].SetPointerToValue(&holder);
+    root[kl.c_str()].AddPointerToValue(&holder);
+    root[km.c_str()] += Value<C>(s.data(), SizeT(s.size()));
+    root[kn.c_str()][kk.c_str()] = Value<C>(s.data(), SizeT(s.size()));
+    {
+        Value<C> item;
+        item[ky.c_str()] = Value<C>(s.data(), SizeT(s.size()));
+        item[kw.c_str()] = SizeT64{1};
+        root[kg.c_str()] += item;
+    }
+    Value<C> proot;
+    proot.SetPointerToValue(&root);
     struct Case {
         const char    *name;
         S              tpl;
         std::u32string escaped_in; // text whose escaped form is expected ...
         std::u32string raw_suffix; // ... followed by this verbatim text
         bool           whole_raw;  // the whole expected output is verbatim
+        bool           ptr_root = false;
     };
     std::vector<Case> cases;
     std::u32string    none;
@@ -184,13 +200,40 @@ static void positions(const Text &t, vx::Ctx &ctx) {
             cases.push_back({"unresolved {var:NAME} echo", nm, src, none, false});
         }
     }
+    const size_t ptr_root_from = cases.size();
+    cases.push_back({"{var:r} pointer member", lit("[{var:r}]"), in, none, false});
+    cases.push_back({"{raw:r} pointer member", lit("[{raw:r}]"), none, in, true});
+    cases.push_back({"loop over [pointer]", lit("[<loop set=\"l\" value=\"v\">{var:v}</loop>]"), in, none, false});
+    cases.push_back({"loop over [string]", lit("[<loop set=\"m\" value=\"v\">{var:v}</loop>]"), in, none, false});
+    cases.push_back({"sorted loop over [string]", lit("[<loop set=\"m\" value=\"v\" sort=\"descend\">{var:v}</loop>]"), in, none, false});
+    cases.push_back({"sorted loop over [pointer] {raw:}", lit("[<loop set=\"l\" value=\"v\" sort=\"ascend\">{raw:v}</loop>]"), none, in, true});
+    cases.push_back({"{var:m[0]}", lit("[{var:m[0]}]"), in, none, false});
+    cases.push_back({"{var:n[k]}", lit("[{var:n[k]}]"), in, none, false});
+    cases.push_back({"{var:l[0]} pointer item", lit("[{var:l[0]}]"), in, none, false});
+    cases.push_back({"svar sub-tag through pointer", lit("[{svar:q,{var:r},{raw:r}}]"), in, std::u32string(U"|") + in, false});
+    cases.push_back({"inline-if {var:r}", lit("[{if case=\"0\" true=\"x\" false=\"{var:r}\"}]"), in, none, false});
+    if (!t.empty()) {
+        cases.push_back({"group name", lit("[<loop set=\"g\" value=\"v\" group=\"y\">{var:v}</loop>]"), in, none, false});
+    }
+    // everything once more through a root that is itself a pointer to the value
+    const size_t ncases = cases.size();
+    for (auto &c : cases) {
+        c.ptr_root = false;
+    }
+    for (size_t i = 0; i < ncases; i++) {
+        if (i < 2 || i >= ptr_root_from) {
+            Case c2    = cases[i];
+            c2.ptr_root = true;
+            cases.push_back(c2);
+        }
+    }
     for (auto &c : cases) {
         StringStream<C> ss;
         ss += C('#');
-        Template::Render(c.tpl.data(), SizeT(c.tpl.size()), root, ss);
+        Template::Render(c.tpl.data(), SizeT(c.tpl.size()), (c.ptr_root ? proot : root), ss);
         ctx.acc.count("evals");
         std::u32string out = widen(ss.First(), ss.Length());
-        std::string    key = std::string(wname<C>()) + " " + c.name + " with " + show(t);
+        std::string    key = std::string(wname<C>()) + " " + c.name + (c.ptr_root ? " (pointer root)" : "") + " with " + show(t);
         if (out.size() < 3 || out[0] != '#' || out[1] != '[' || out.back() != ']') {
             ctx.fail(key, "frame '#[' ... ']' around the tag is damaged: '" + show(Text(out.begin(), out.end())) + "'");
             continue;
